@@ -10,9 +10,12 @@ Local Open Scope N_scope.
 
 Section Post.
 Variable rank : ip -> N.
-Variable post : pools -> svcobj -> Prop.      (* may depend on the configuration the controller holds *)
+(* may depend on the configuration the controller holds and on what memory records for the Service *)
+Variable post : pools -> option alloc -> svcobj -> Prop.
 Hypothesis Hconv : forall a s o k v ok, minv a ->
-  converge rank a s o k = CR v ok -> post (s_pools a) (with_status o (cv_status v) (cv_annot v)).
+  converge rank a s o k = CR v ok -> post (s_pools a) (get_alloc (cv_mem v) s) (with_status o (cv_status v) (cv_annot v)).
+
+Local Notation PW w t o := (post (s_pools (c_mem (w_ctl w))) (get_alloc (c_mem (w_ctl w)) t) o).
 
 Lemma with_status_id o : with_status o (o_status o) (o_annot o) = o.
 Proof. destruct o; reflexivity. Qed.
@@ -21,13 +24,13 @@ Lemma handler_post w s k w1 r o :
   apply_handler rank w s k = Some (w1, r) -> aget (w_api w) s = Some o ->
   c_have_pools (w_ctl w) = true -> minv (c_mem (w_ctl w)) ->
   r <> Error -> r <> ReprocessAll ->
-  forall o1, aget (w_api w1) s = Some o1 -> post (s_pools (c_mem (w_ctl w1))) o1.
+  forall o1, aget (w_api w1) s = Some o1 -> PW w1 s o1.
 Proof.
   intros EH0. rewrite (apply_handler_pools rank _ _ _ _ _ EH0). revert EH0. unfold apply_handler. rewrite api_get_aget. intros H Eo Hp Hm Hr1 Hr2. rewrite Eo in H.
   destruct (set_balancer rank (w_ctl w) s (Some o) k) as [oc|] eqn:ES; [|discriminate].
-  injection H as <- <-. cbn [w_api].
-  destruct (set_balancer_mem rank _ _ _ _ _ ES Hp) as (v & ok & EC & _ & Hw).
-  pose proof (Hconv _ _ _ _ _ _ Hm EC) as HP.
+  injection H as <- <-. cbn [w_api w_ctl].
+  destruct (set_balancer_mem rank _ _ _ _ _ ES Hp) as (v & ok & EC & Hmem & Hw).
+  pose proof (Hconv _ _ _ _ _ _ Hm EC) as HP. rewrite Hmem.
   pose proof (set_balancer_spec rank _ _ _ _ _ ES) as (_ & _ & _ & _ & Hmain). specialize (Hmain Hp).
   destruct (oc_write oc) as [[st an]|].
   - destruct Hw as [-> ->]. destruct Hmain as (_ & _ & Hw2). destruct (k_write k).
@@ -38,14 +41,14 @@ Qed.
 
 Definition L (w : world) : Prop :=
   w_reload w = true \/ w_gate w = false \/
-  forall s o, aget (w_api w) s = Some o -> In s (w_queue w) \/ post (s_pools (c_mem (w_ctl w))) o.
+  forall s o, aget (w_api w) s = Some o -> In s (w_queue w) \/ PW w s o.
 
 Lemma pass_post order : forall ks w retry acc w' retry' rs (D : svc -> Prop),
   reload_pass rank w order ks retry acc = Some (w', retry', rs) ->
   mem_inv (w_ctl w) -> c_have_pools (w_ctl w) = true ->
   retry' = false ->
-  (forall t o, D t -> aget (w_api w) t = Some o -> post (s_pools (c_mem (w_ctl w))) o) ->
-  forall t o, D t \/ In t order -> aget (w_api w') t = Some o -> post (s_pools (c_mem (w_ctl w'))) o.
+  (forall t o, D t -> aget (w_api w) t = Some o -> PW w t o) ->
+  forall t o, D t \/ In t order -> aget (w_api w') t = Some o -> PW w' t o.
 Proof.
   induction order as [|s order IH]; intros ks w retry acc w' retry' rs D H Hm Hp Hr HD t o Ht.
   - cbn in H. injection H as <- _ _. destruct Ht as [Ht|[]]. apply HD. exact Ht.
@@ -61,7 +64,7 @@ Proof.
       * destruct (N.eq_dec u s) as [->|Hne].
         -- case_eq (aget (w_api w) s); [intros os Eos|intros Eos; apply Ex1 in Eos; congruence].
            exact (handler_post _ _ _ _ _ _ EH Eos Hp Hm (proj2 Hrr) (proj1 Hrr) ou Hou).
-        -- rewrite (proj1 (F1 u Hne)) in Hou. rewrite Hps. apply (HD u ou Hu Hou).
+        -- rewrite (proj1 (F1 u Hne)) in Hou. rewrite Hps, (proj2 (F1 u Hne)). apply (HD u ou Hu Hou).
       * case_eq (aget (w_api w) s); [intros os Eos|intros Eos; apply Ex1 in Eos; congruence].
         exact (handler_post _ _ _ _ _ _ EH Eos Hp Hm (proj2 Hrr) (proj1 Hrr) ou Hou).
     + destruct Ht as [Ht|[<- |Ht]]; auto.
@@ -94,15 +97,15 @@ Proof.
       * right. right. cbn [w_api w_queue w_ctl]. intros t ot Ht. destruct (N.eq_dec t s) as [->|Hne].
         -- right. case_eq (aget (w_api w) s); [intros os Eos|intros Eos; apply Ex1 in Eos; congruence].
            apply (handler_post _ _ _ _ _ _ EH Eos Hp HI); [discriminate|discriminate|exact Ht].
-        -- rewrite (proj1 (F1 t Hne)) in Ht. destruct (H t ot Ht); [left; apply In_dequeue; auto|right; rewrite Hps; assumption].
+        -- rewrite (proj1 (F1 t Hne)) in Ht. destruct (H t ot Ht); [left; apply In_dequeue; auto|right; rewrite Hps, (proj2 (F1 t Hne)); assumption].
       * right. right. cbn [w_api w_queue w_ctl]. intros t ot Ht. destruct (N.eq_dec t s) as [->|Hne].
         -- left. apply negb_false_iff, memN_In in Eq. exact Eq.
-        -- rewrite (proj1 (F1 t Hne)) in Ht. destruct (H t ot Ht); [left; assumption|right; rewrite Hps; assumption].
+        -- rewrite (proj1 (F1 t Hne)) in Ht. destruct (H t ot Ht); [left; assumption|right; rewrite Hps, (proj2 (F1 t Hne)); assumption].
       * left. cbn. apply orb_true_r.
       * right. right. cbn [w_api w_queue w_ctl]. intros t ot Ht. destruct (N.eq_dec t s) as [->|Hne].
         -- right. case_eq (aget (w_api w) s); [intros os Eos|intros Eos; apply Ex1 in Eos; congruence].
            apply (handler_post _ _ _ _ _ _ EH Eos Hp HI); [discriminate|discriminate|exact Ht].
-        -- rewrite (proj1 (F1 t Hne)) in Ht. destruct (H t ot Ht); [left; apply In_dequeue; auto|right; rewrite Hps; assumption].
+        -- rewrite (proj1 (F1 t Hne)) in Ht. destruct (H t ot Ht); [left; apply In_dequeue; auto|right; rewrite Hps, (proj2 (F1 t Hne)); assumption].
   - destruct (negb (w_reload w)) eqn:Er; [discriminate|]. apply negb_false_iff in Er.
     destruct (negb (same_set order (map fst (w_api w)) && desc_by_status w order)) eqn:Eo; [discriminate|].
     apply negb_false_iff, andb_true_iff in Eo. destruct Eo as [Eo _].
@@ -127,7 +130,7 @@ Qed.
 
 Theorem quiescent_post evs w :
   wrun rank evs world0 = Some w -> quiescent w ->
-  forall s o, aget (w_api w) s = Some o -> post (s_pools (c_mem (w_ctl w))) o.
+  forall s o, aget (w_api w) s = Some o -> PW w s o.
 Proof.
   intros Hr (Hq1 & Hq2 & Hq3).
   destruct (wrun_L evs world0 w WInv_world0 (or_intror (or_introl eq_refl)) Hr) as [_ [H|[H|H]]]; [congruence|congruence|].
@@ -372,14 +375,14 @@ Theorem quiescent_explicit_exact rank evs w s o d :
   o_want o = WIps d -> (is_prefer (r_pol (o_req o)) && is_dual (r_fam (o_req o))) = false ->
   o_status o = [] \/ same_ips (o_status o) d.
 Proof.
-  intros Hr Hq Ho. apply (quiescent_post rank (fun _ => post_explicit) (fun a s o k v ok => converge_post_explicit rank a s o k v ok) evs w Hr Hq s o Ho).
+  intros Hr Hq Ho. apply (quiescent_post rank (fun _ _ => post_explicit) (fun a s o k v ok => converge_post_explicit rank a s o k v ok) evs w Hr Hq s o Ho).
 Qed.
 
 Theorem quiescent_family_ok rank evs w s o :
   wrun rank evs world0 = Some w -> quiescent w -> aget (w_api w) s = Some o -> o_status o <> [] ->
   o_lb o = true /\ family_changed (alloc_fam (o_status o)) (r_fam (o_req o)) (r_pol (o_req o)) = false.
 Proof.
-  intros Hr Hq Ho. apply (quiescent_post rank (fun _ => post_family) (fun a s o k v ok => converge_post_family rank s o a k v ok) evs w Hr Hq s o Ho).
+  intros Hr Hq Ho. apply (quiescent_post rank (fun _ _ => post_family) (fun a s o k v ok => converge_post_family rank s o a k v ok) evs w Hr Hq s o Ho).
 Qed.
 
 Theorem quiescent_pool_admits rank evs w s o :
@@ -388,5 +391,251 @@ Theorem quiescent_pool_admits rank evs w s o :
   exists p, In p (by_name (s_pools (c_mem (w_ctl w)))) /\ o_annot o = Some (p_name p) /\
             (forall x, In x (o_status o) -> in_pool p x = true) /\ compatible p (o_req o) = true.
 Proof.
-  intros Hr Hq Ho. apply (quiescent_post rank post_pool (fun a s o k v ok => converge_post_pool rank a s o k v ok) evs w Hr Hq s o Ho).
+  intros Hr Hq Ho. apply (quiescent_post rank (fun ps _ => post_pool ps) (fun a s o k v ok => converge_post_pool rank a s o k v ok) evs w Hr Hq s o Ho).
+Qed.
+
+(* ---------- requested pool; memory record vs spec ---------- *)
+Section WantPool.
+Variable rank : ip -> N.
+Variable s : svc.
+Variable o : svcobj.
+Variable wp : poolid.
+Hypothesis Hwp : o_want_pool o = Some wp.
+Variable ps : pools.
+Hypothesis Hnu : names_unique ps.
+Hypothesis Hdj : pools_disjoint (by_name ps).
+
+(* memory has the configuration ps, is coherent, and whatever it records for s lies in pool wp *)
+Definition WPI (a : st) : Prop :=
+  s_pools a = ps /\ minv a /\ forall al, get_alloc a s = Some al -> a_pool al = wp.
+
+Lemma WPI_unassign a : s_pools a = ps -> minv a -> WPI (unassign a s).
+Proof.
+  intros Hp Hm. split; [exact Hp|]. split; [apply (MI_unassign s a Hm)|].
+  intros al H. rewrite get_alloc_unassign_same in H. discriminate.
+Qed.
+
+(* an assignment whose addresses all lie in the pool named wp is recorded under wp *)
+Lemma assign_in_pool a r ips a' out p :
+  s_pools a = ps -> minv a -> assign a s r ips = (a', ROk out) ->
+  find_pool ps wp = Some p -> ips <> [] -> (forall x, In x ips -> in_pool p x = true) -> WPI a'.
+Proof.
+  intros Hp Hm Ha Hf Hne Hall.
+  pose proof (MI_assign s a r ips Hm) as Hm'. rewrite Ha in Hm'. cbn [fst] in Hm'.
+  apply assign_ok_inv in Ha. destruct Ha as (p' & Hck & _ & ->).
+  split; [cbn; exact Hp|]. split; [exact Hm'|].
+  intros al Hg. rewrite get_alloc_do_assign_same in Hg. injection Hg as <-. cbn.
+  apply assign_check_spec in Hck. destruct Hck as (Hpf & _). rewrite Hp in Hpf.
+  destruct (find_pool_spec _ _ _ Hf) as [Hin Hn].
+  rewrite <- (owner_unique (by_name ps) ips p' p Hdj Hne Hpf Hin Hall). exact Hn.
+Qed.
+
+Lemma WPI_clear c : s_pools (cv_mem c) = ps -> minv (cv_mem c) -> WPI (cv_mem (clear c s)).
+Proof. intros. cbn. apply WPI_unassign; assumption. Qed.
+
+Lemma stageB_WPI c1 lb1 : s_pools (cv_mem c1) = ps -> minv (cv_mem c1) ->
+  (lb1 = [] -> get_alloc (cv_mem c1) s = None) ->
+  match stageB rank c1 lb1 s o with inl (c3, _) | inr c3 => WPI (cv_mem c3) end.
+Proof.
+  intros Hp Hm Hn. unfold stageB. destruct lb1 as [|x l].
+  - split; [exact Hp|]. split; [exact Hm|]. intros al H. rewrite (Hn eq_refl) in H. discriminate.
+  - assert (W : forall c lb, WPI (cv_mem c) ->
+       match match o_want o with
+             | WInvalid => inr c
+             | WIps d => if equal_ips rank lb d then inl (c, sort2 rank lb) else inl (clear c s, [])
+             | WNone => inl (c, lb)
+             end with
+       | inl (c3, _) | inr c3 => WPI (cv_mem c3)
+       end).
+    { intros c lb Hc. destruct (o_want o) as [|d|]; [exact Hc| |exact Hc].
+      destruct (equal_ips rank lb d); [exact Hc|]. destruct Hc as (H1 & H2 & _). apply WPI_clear; assumption. }
+    pose proof (MI_assign s (cv_mem c1) (o_req o) (x :: l) Hm) as Hm2.
+    pose proof (assign_pools (cv_mem c1) s (o_req o) (x :: l)) as Hp2.
+    destruct (assign (cv_mem c1) s (o_req o) (x :: l)) as [a' [i|e|]]; cbn [fst] in Hm2, Hp2.
+    + rewrite Hwp. cbn [cv_mem].
+      destruct (opt_pool_eqb (pool_of a' s) (Some wp)) eqn:Eq; apply W.
+      * split; [cbn; congruence|]. split; [exact Hm2|]. cbn [cv_mem]. intros al Hg. unfold pool_of in Eq. rewrite Hg in Eq. cbn in Eq.
+        apply N.eqb_eq in Eq. exact Eq.
+      * apply WPI_clear; cbn; [congruence|exact Hm2].
+    + apply W. apply WPI_clear; assumption.
+    + apply W. apply WPI_clear; assumption.
+Qed.
+
+Lemma stageC_WPI c3 lb3 k c4 lb4 : WPI (cv_mem c3) -> Q s c3 lb3 ->
+  stageC c3 lb3 s (o_req o) k = Some (c4, lb4) -> WPI (cv_mem c4).
+Proof.
+  intros H3 Q3. unfold stageC. destruct lb3 as [|have [|y l]]; try (intros [= <- _]; exact H3).
+  destruct (additional_applies (o_req o) [have]); [|intros [= <- _]; exact H3].
+  destruct (pool_of (cv_mem c3) s) as [pn|] eqn:Epo; [|intros [= <- _]; exact H3].
+  destruct (alloc_op (cv_mem c3) (OAdditional s (o_req o) have pn (the_additional have k))) as [[a' res]|] eqn:E; [|discriminate].
+  apply alloc_op_some in E. destruct E as [E _].
+  assert (Ha : WPI a').
+  { destruct H3 as (Hp & Hm & Hal).
+    assert (Hsame : WPI (cv_mem c3)) by (split; auto).
+    cbn [step] in E.
+    destruct (additional_spec (cv_mem c3) s (o_req o) have pn (the_additional have k)) eqn:Es.
+    2:{ injection E as <- _. exact Hsame. }
+    destruct (the_additional have k) as [x|].
+    2:{ injection E as <- _. exact Hsame. }
+    destruct (assign (cv_mem c3) s (o_req o) [have; x]) as [a1 [i|e|]] eqn:Ea.
+    2:{ injection E as <- _. exact Hsame. }
+    2:{ injection E as <- _. exact Hsame. }
+    injection E as <- _.
+    (* the old allocation: pool wp, contains have *)
+    unfold pool_of in Epo. destruct (get_alloc (cv_mem c3) s) as [al|] eqn:Hg; [|discriminate]. cbn in Epo. injection Epo as <-.
+    pose proof (Hal al eq_refl) as Hpool. 
+    destruct (proj2 Hm (s, al)) as (p0 & Hpf0 & Hn0); [apply get_alloc_In; [exact (proj1 (proj1 Hm))|exact Hg]|].
+    cbn [snd] in Hpf0, Hn0. rewrite Hp in Hpf0. apply pool_for_spec in Hpf0. destruct Hpf0 as [Hin0 Hall0].
+    unfold additional_spec in Es. rewrite Hp in Es. destruct (find_pool ps (a_pool al)) as [p|] eqn:Ef; [|discriminate].
+    destruct (find_pool_spec _ _ _ Ef) as [Hinp Hnp].
+    assert (p0 = p) by (apply (names_unique_eq ps); auto; congruence). subst p0.
+    repeat (apply andb_true_iff in Es; destruct Es as [Es ?]).
+    rewrite Hpool in Ef.
+    eapply (assign_in_pool _ _ _ _ _ p Hp Hm Ea Ef); [discriminate|].
+    intros z [<-|[<-|[]]]; [|assumption].
+    apply Hall0. destruct Q3 as [Q1 _]. unfold ips_of in Q1. rewrite Hg in Q1. apply Q1. left. reflexivity. }
+  destruct res as [[|x [|? ?]]|e|]; intros [= <- _]; exact Ha.
+Qed.
+
+Lemma stageD_WPI c4 lb4 k res : WPI (cv_mem c4) -> (lb4 = [] -> get_alloc (cv_mem c4) s = None) ->
+  stageD c4 lb4 s o k = Some res ->
+  match res with inl (c5, _) | inr c5 => WPI (cv_mem c5) end.
+Proof.
+  intros H4 Hn. unfold stageD. destruct lb4 as [|x l]; [|intros [= <-]; exact H4].
+  specialize (Hn eq_refl). destruct H4 as (Hp & Hm & Hal).
+  assert (Hsame : WPI (cv_mem c4)) by (split; auto).
+  destruct (o_want o) as [|d|].
+  - rewrite Hwp.
+    destruct (alloc_op (cv_mem c4) (OAllocateFromPool s (o_req o) wp (option_map snd (k_final k)))) as [[a' r]|] eqn:E; [|discriminate].
+    apply alloc_op_some in E. destruct E as [E _].
+    assert (Ha : WPI a').
+    { cbn [step] in E. rewrite Hn in E.
+      destruct (from_pool_spec (cv_mem c4) s (o_req o) wp (option_map snd (k_final k))) eqn:Es.
+      2:{ injection E as <- _. exact Hsame. }
+      destruct (option_map snd (k_final k)) as [ips|].
+      2:{ injection E as <- _. exact Hsame. }
+      destruct (assign (cv_mem c4) s (o_req o) ips) as [a1 [i|e|]] eqn:Ea.
+      2:{ injection E as <- _. exact Hsame. }
+      2:{ injection E as <- _. exact Hsame. }
+      injection E as <- _.
+      unfold from_pool_spec in Es. rewrite Hp in Es. destruct (find_pool ps wp) as [p|] eqn:Ef; [|discriminate].
+      apply andb_true_iff in Es. destruct Es as [Es _].
+      eapply (assign_in_pool _ _ _ _ _ p Hp Hm Ea Ef).
+      - intros ->. rewrite offer_ok_nonempty in Es. discriminate.
+      - intros z Hz. unfold offer_ok in Es. apply andb_true_iff in Es. destruct Es as [Es _].
+        pose proof (proj1 (forallb_forall _ _) Es z Hz) as Hz'. apply andb_true_iff in Hz'. tauto. }
+    destruct r; intros [= <-]; exact Ha.
+  - destruct (negb _); [intros [= <-]; exact Hsame|].
+    pose proof (MI_assign s (cv_mem c4) (o_req o) d Hm) as Hm2.
+    pose proof (assign_pools (cv_mem c4) s (o_req o) d) as Hp2.
+    destruct (assign (cv_mem c4) s (o_req o) d) as [a' [i|e|]]; cbn [fst] in Hm2, Hp2; try (intros [= <-]; exact Hsame).
+    rewrite Hwp. destruct (opt_pool_eqb (pool_of a' s) (Some wp)) eqn:Eq; intros [= <-].
+    + split; [cbn; congruence|]. split; [exact Hm2|]. cbn [cv_mem]. intros al Hg. unfold pool_of in Eq. rewrite Hg in Eq. cbn in Eq.
+      apply N.eqb_eq in Eq. exact Eq.
+    + cbn [cv_mem]. apply WPI_unassign; [congruence|exact Hm2].
+  - intros [= <-]. exact Hsame.
+Qed.
+
+Lemma converge_WPI a k v ok : s_pools a = ps -> minv a ->
+  converge rank a s o k = CR v ok -> WPI (cv_mem v).
+Proof.
+  intros Hp Hm. unfold converge.
+  set (c0 := {| cv_mem := a; cv_status := o_status o; cv_annot := o_annot o |}).
+  assert (H0 : WPI (cv_mem (clear c0 s))) by (apply WPI_clear; assumption).
+  destruct (negb (o_lb o)); [intros [= <- _]; exact H0|].
+  destruct (match by_name (s_pools a) with [] => true | _ => false end); [intros [= <- _]; exact H0|].
+  destruct (negb (o_cluster_ok o)); [intros [= <- _]; exact H0|].
+  destruct (is_require _ && _); [intros [= <- _]; exact H0|].
+  destruct (stageA c0 s o) as [c1 lb1] eqn:EA.
+  pose proof (stageA_NilNone s _ _ _ _ EA) as NA.
+  assert (HA : s_pools (cv_mem c1) = ps /\ minv (cv_mem c1)).
+  { unfold stageA in EA. destruct (o_status o); [injection EA as <- _; cbn; split; [exact Hp|apply (MI_unassign s a Hm)]|].
+    destruct (family_changed _ _ _); injection EA as <- _; cbn; split; auto. apply (MI_unassign s a Hm). }
+  pose proof (stageB_WPI c1 lb1 (proj1 HA) (proj2 HA) NA) as HB.
+  pose proof (stageB_Q rank s c0 o c1 lb1 eq_refl EA) as QB.
+  pose proof (stageB_NilNone rank s c1 lb1 o NA) as NB.
+  destruct (stageB rank c1 lb1 s o) as [[c3 lb3]|c3]; [|intros [= <- _]; exact HB].
+  destruct (stageC c3 lb3 s (o_req o) k) as [[c4 lb4]|] eqn:EC; [|discriminate].
+  pose proof (stageC_WPI _ _ _ _ _ HB QB EC) as HC.
+  pose proof (stageC_NilNone s _ _ _ _ _ _ NB EC) as NC.
+  destruct (stageD c4 lb4 s o k) as [res|] eqn:ED; [|discriminate].
+  pose proof (stageD_WPI _ _ _ _ HC NC ED) as HD.
+  destruct res as [[c5 lb5]|c5]; [|intros [= <- _]; exact HD].
+  unfold stageE. destruct HD as (D1 & D2 & D3).
+  destruct lb5; [intros [= <- _]; apply WPI_clear; assumption|].
+  destruct (pool_of (cv_mem c5) s) as [pn|]; [|intros [= <- _]; apply WPI_clear; assumption].
+  destruct (find_pool _ pn); intros [= <- _]; [split; auto|apply WPI_clear; assumption].
+Qed.
+End WantPool.
+
+(* C02: a Service that requests a pool has an address of that pool or none *)
+Definition post_wantpool (ps : pools) (_ : option alloc) (o : svcobj) : Prop :=
+  names_unique ps -> pools_disjoint (by_name ps) ->
+  forall wp, o_want_pool o = Some wp -> o_want o <> WInvalid -> o_status o = [] \/ o_annot o = Some wp.
+
+Lemma converge_post_wantpool rank a s o k v ok : minv a ->
+  converge rank a s o k = CR v ok ->
+  post_wantpool (s_pools a) (get_alloc (cv_mem v) s) (with_status o (cv_status v) (cv_annot v)).
+Proof.
+  intros Hm EC Hnu Hdj wp Hwp Hw. cbn [with_status o_want_pool o_want o_status o_annot] in *.
+  destruct ok.
+  - destruct (o_lb o) eqn:Hlb.
+    + right. destruct (converge_ok_annot rank s _ _ _ _ EC Hlb) as (_ & Han & pn & p & Hpn & _).
+      destruct (converge_WPI rank s o wp Hwp (s_pools a) Hnu Hdj a k v true eq_refl Hm EC) as (_ & _ & Hal).
+      rewrite Han. unfold pool_of. destruct (get_alloc (cv_mem v) s) as [al|] eqn:Hg.
+      * cbn. f_equal. apply Hal. reflexivity.
+      * exfalso. rewrite Han in Hpn. unfold pool_of in Hpn. rewrite Hg in Hpn. discriminate.
+    + left. unfold converge in EC. rewrite Hlb in EC. cbn in EC. injection EC as <-. reflexivity.
+  - left. destruct (converge_fail_status rank _ _ _ _ _ EC); [congruence|assumption].
+Qed.
+
+Theorem quiescent_requested_pool rank evs w s o wp :
+  wrun rank evs world0 = Some w -> quiescent w -> aget (w_api w) s = Some o ->
+  names_unique (s_pools (c_mem (w_ctl w))) -> pools_disjoint (by_name (s_pools (c_mem (w_ctl w)))) ->
+  o_want_pool o = Some wp -> o_want o <> WInvalid -> o_status o = [] \/ o_annot o = Some wp.
+Proof.
+  intros Hr Hq Ho Hnu Hdj. apply (quiescent_post rank post_wantpool (fun a s o k v ok => converge_post_wantpool rank a s o k v ok) evs w Hr Hq s o Ho Hnu Hdj).
+Qed.
+
+(* C01 bridge: what memory records for a Service carries the ports and the sharing /
+   backend key of the Service as it is now, and exactly its status addresses *)
+Definition post_attrs (_ : pools) (ga : option alloc) (o : svcobj) : Prop :=
+  forall al, ga = Some al ->
+    a_ports al = r_ports (o_req o) /\ a_key al = r_key (o_req o) /\ same_ips (a_ips al) (o_status o).
+
+Lemma converge_post_attrs rank a s o k v ok : minv a ->
+  converge rank a s o k = CR v ok ->
+  post_attrs (s_pools a) (get_alloc (cv_mem v) s) (with_status o (cv_status v) (cv_annot v)).
+Proof.
+  intros _ EC al Hg. cbn [with_status o_req o_status].
+  destruct (converge_attrs rank s _ _ _ _ _ EC al Hg) as (H1 & H2 & _).
+  split; [exact H1|]. split; [exact H2|].
+  pose proof (converge_synced rank s _ _ _ _ _ EC) as Hs. unfold synced, ips_of in Hs. rewrite Hg in Hs. exact Hs.
+Qed.
+
+Theorem quiescent_record_matches_spec rank evs w s o al :
+  wrun rank evs world0 = Some w -> quiescent w -> aget (w_api w) s = Some o ->
+  get_alloc (c_mem (w_ctl w)) s = Some al ->
+  a_ports al = r_ports (o_req o) /\ a_key al = r_key (o_req o) /\ same_ips (a_ips al) (o_status o).
+Proof.
+  intros Hr Hq Ho Hg.
+  exact (quiescent_post rank post_attrs (fun a s o k v ok => converge_post_attrs rank a s o k v ok) evs w Hr Hq s o Ho al Hg).
+Qed.
+
+(* C01, status level, in terms of what the Services themselves carry: two Services whose
+   statuses share an address have the same non-empty sharing key, the same backend
+   key and disjoint (protocol, port) sets *)
+Theorem quiescent_statuses_exclusive_specs rank evs w s1 s2 o1 o2 x :
+  wrun rank evs world0 = Some w -> quiescent w -> s1 <> s2 ->
+  aget (w_api w) s1 = Some o1 -> aget (w_api w) s2 = Some o2 ->
+  In x (o_status o1) -> In x (o_status o2) ->
+  let k1 := r_key (o_req o1) in let k2 := r_key (o_req o2) in
+  sharing k1 <> 0 /\ sharing k1 = sharing k2 /\ backend k1 = backend k2 /\
+  forall p, In p (r_ports (o_req o1)) -> ~ In p (r_ports (o_req o2)).
+Proof.
+  intros Hr Hq Hne H1 H2 Hx1 Hx2.
+  destruct (quiescent_status_exclusive rank evs w s1 s2 o1 o2 x Hr Hq Hne H1 H2 Hx1 Hx2) as (al1 & al2 & G1 & G2 & Hsh).
+  destruct (quiescent_record_matches_spec rank evs w s1 o1 al1 Hr Hq H1 G1) as (P1 & K1 & _).
+  destruct (quiescent_record_matches_spec rank evs w s2 o2 al2 Hr Hq H2 G2) as (P2 & K2 & _).
+  unfold shareable in Hsh. rewrite P1, P2, K1, K2 in Hsh. exact Hsh.
 Qed.
